@@ -136,9 +136,9 @@ func init() {
 	}
 	plans["C11"] = plan{
 		Level: "exploration",
-		Parts: []part{{"A", "c11", 3200, 4, 200}, {"A", "c11big", 96, 1, 16}},
+		Parts: []part{{"A", "c11", 3200, 4, 200}, {"A", "c11big", 96, 1, 16}, {"A", "c11dd", 120, 1, 20}},
 		Rule: "world A: each run = one seeded scenario (1-4 syslog clients with bursts, pauses around the flush interval and records split across writes; 1-5 key tuples; knobs for batch size, memory window, chunk limits, message mode, timeouts; a script of upstream behaviour per connection attempt: refuse / connect timeout / reset after k messages / reset mid-stream / never ACK / late ACK / ACK of unknown id / accept but never read / close; graceful stop+restart generations on the same queue directory; SIGUSR1; a fault-free tail) executed under one seeded goroutine schedule. " +
-			"Profile c11 scales chunk limits down (200 B-64 KiB, 0-10 records), draws record sizes around them, all three Forward modes; profile c11big runs the shipped limits (7 MiB chunks, 1 MiB messages) with records of 150-650 KiB into one pipeline, so that single chunks grow past the 1 MiB initial capacity of the chunk and message buffers. Oracle C11 on every message the upstream received and every queue file of every stop: decodes completely, size option == number of events, compressed option fits the mode, tag == pipeline tag, file name == chunk id, a chunk id never names two different contents, no record in two different chunks, records of a connection in order inside and across chunks, size/record limits respected unless a single record, every read unfiltered record in some chunk. Non-trivial: at least one fault fired and oracle obligations were evaluated; distinct = (scenario hash, context-switch hash).",
+			"Profile c11 scales chunk limits down (200 B-64 KiB, 0-10 records), draws record sizes around them, all three Forward modes; profile c11big runs the shipped limits (7 MiB chunks, 1 MiB messages) with records of 150-650 KiB into one pipeline, so that single chunks grow past the 1 MiB initial capacity of the chunk and message buffers; profile c11dd adds a Datadog output/buffer pair next to the Forward one (its HTTP client is replaced by a consumer that never takes a chunk, so every chunk its chunk maker produces is spilled or saved to its queue root and read there): a third of these runs aim one burst at the 1000-record limit (999-1003 records), a third at the 5 MiB limit (sizes computed with the real serializer so that the burst as one JSON array is the limit -2..+3 bytes); Datadog chunks must be gzip JSON arrays without padding, within both limits unless a single record, every element byte-equal to its record serialized alone, every fully read record in exactly one chunk, per-connection order kept. Oracle C11 on every message the upstream received and every queue file of every stop: decodes completely, size option == number of events, compressed option fits the mode, tag == pipeline tag, file name == chunk id, a chunk id never names two different contents, no record in two different chunks, records of a connection in order inside and across chunks, size/record limits respected unless a single record, every read unfiltered record in some chunk. Non-trivial: at least one fault fired and oracle obligations were evaluated; distinct = (scenario hash, context-switch hash).",
 		Real: []string{"the whole agent as run.Run assembles it: run.Loader/Reloader, sysloginput, tcplistener, syslogparser, transforms, byKeySet orchestrator, pipelines, fluentdforward serializer/chunk maker/client, baseoutput, hybridbuffer, util/files.go, metrics", "gotils channels, promext", "fluentlib forwardprotocol + msgpack (decoding on the fake server side)"},
 		Stub: []string{"TCP both ways (simnet)", "disk (simfs)", "signals (simsignal)", "syslog clients", "fake Fluentd Forward server scripted per connection attempt", "driver (graceful stop + restart, SIGHUP with rewritten config file, SIGUSR1)", "sync.Pool (simsync.Pool)"},
 		Assumption: []string{
